@@ -52,6 +52,14 @@ def typing_obligations(run, prop, rule, repo, sc, scen, mods=None):
             where, cons, f, ln = ev_where(repo, e, mods)
             run.oblige(rule, (where, cons, 'sign'), False)
             run.add(Finding(prop, rule, where, cons, f'part of a tensor-train core can be wiped out ({scen}): {e["detail"]}', f, ln, {'scenario': scen}))
+        elif k == 'eigs-which':
+            where, cons, f, ln = ev_where(repo, e, mods)
+            run.oblige(rule, (where, cons, 'which'), False)
+            run.add(Finding(prop, rule, where, cons, f'the shift-invert eigensolver does not target the eigenvalues nearest to sigma ({scen}): {e["detail"]}', f, ln, {'scenario': scen}))
+        elif k == 'iterative-solve' and isinstance(e.get('rtol'), (int, float)) and e['rtol'] > 1e-10:
+            where, cons, f, ln = ev_where(repo, e, mods)
+            run.oblige(rule, (where, cons, 'iterative'), False)
+            run.add(Finding(prop, rule, where, cons, f'a micro system is solved only approximately ({scen}): {e["detail"]}', f, ln, {'scenario': scen}))
         elif k == 'sum-type-error':
             where, cons, f, ln = ev_where(repo, e, mods)
             run.oblige(rule, (where, cons, 'sum'), False)
